@@ -319,16 +319,20 @@ EXPLANATION = (
     "given label to the expected/unexpected maps; ParserState.__init__ is proved to establish the initial state; "
     "error_context is proved to return the line/column of the failure position (C14's declarative Spec) and that line. "
     "Together with the furthest-position clauses of every operator proof this gives the position claim for all inputs. "
-    "Rendering totality (detailed_message / expected / expected_labels / join_with_limit) is a bounded stand-in."
+    "Rendering (contracts/c13_render.py): join_with_limit, PestParsingError.expected / expected_labels / detailed_message / "
+    "__init__ / __str__ are executed symbolically for arbitrary label lists, separators, limits and furthest positions and "
+    "proved never to raise, to return a str and to show error_context's line:column, line and caret. The optimizer's "
+    "synthetic SKIP rule is proved to be tried with failure recording suppressed (interpreter and emitted code)."
 )
 TRUSTED = [
     "pyvc executor's model of the Python subset used; dict[str, list[str]] abstracted as (key sequence, flattened label sequence)",
     "z3 5.1.0 / cvc5 1.0.3",
     "C14's splitlines BRIDGE; str.rstrip() as an opaque function",
+    "rendering: str.join, str(int), str * int are total uninterpreted functions into str; list(d) / chain(*d.values()) are the key / label sequences of the dict abstraction; Exception.__init__ stores its arguments in args; MemoryError not modelled",
     "the rule names pushed on the rule stack are rules of the grammar (Rule.parse pushes itself; generated code pushes its RuleFrame) - frame argument over the proved Rule contracts",
 ]
 ASSUMPTIONS = ["no caller passes fail(pos=...) (syntactic scan of the call sites, extra check)", "labels are str (every call site passes str(self) / a stack entry / a literal: scanned)"]
-BOUNDED = ["rendering totality: all combinations of small texts (empty, multi-line, trailing newline, non-ASCII) x every furthest_pos in -1..len x expected/unexpected shapes (0-3 rules, 0-3 labels, long labels) - stand-in"]
+BOUNDED = ["rendering on real states (kept beside the proof): all combinations of small texts (empty, multi-line, trailing newline, non-ASCII) x every furthest_pos in -1..len x expected/unexpected shapes (0-3 rules, 0-3 labels, long labels) - stand-in"]
 
 
 def specs(tier):
